@@ -21,7 +21,8 @@ structure State (α : Type) where
 structure Result (α : Type) where
   statistic : α
   h : Nat
-  p : Nat × Nat
+  /-- exact p-value as a fraction; `none`: asymptotic branch -/
+  p : Option (Nat × Nat)
 
 variable {α : Type} [Num α]
 
@@ -33,19 +34,28 @@ def fit (s : State α) (xs : List α) : State α :=
   { s with ref := some (Hist.sort xs),
            gcd := if max xs.length s.window ≤ maxAutoN then some (Nat.gcd xs.length s.window) else s.gcd }
 
-/-- `update`: `none` until `window` values have arrived (or when not fitted / asymptotic branch, which the model leaves to scipy) -/
+/-- `update` on an unfitted detector raises MissingFitError before anything is counted or stored -/
+def updateErr (s : State α) : Option Err := if s.ref.isNone then some .missingFit else none
+
+/-- the p-value of a result: `some` exact fraction when `max(n, w) ≤ 10000`, `none` on the asymptotic
+branch (`kstwo.sf`, left to scipy) -/
+def pOf (n w h : Nat) : Option (Nat × Nat) :=
+  if max n w ≤ maxAutoN then some (KS.pExactFrac n w h) else none
+
+/-- `update`: unfitted → nothing changes (see `updateErr`); `none` until `window` values have arrived -/
 def update (s : State α) (v : α) : Option (Result α) × State α :=
-  match s.q.enqueue v with
-  | .error _ => (none, s)
-  | .ok (_, q) =>
-    let s := { s with n := s.n + 1, q := q }
-    if s.n < s.window then (none, s)
-    else match s.ref with
-      | none => (none, s)
-      | some r =>
+  match s.ref with
+  | none => (none, s)
+  | some r =>
+    match s.q.enqueue v with
+    | .error _ => (none, s)
+    | .ok (_, q) =>
+      let s := { s with n := s.n + 1, q := q }
+      if s.n < s.window then (none, s)
+      else
         let w := q.raw.filterMap id
         let h := KS.hTwoSided r w
-        (some ⟨KS.statistic r w, h, KS.pExactFrac r.length w.length h⟩, s)
+        (some ⟨KS.statistic r w, h, pOf r.length w.length h⟩, s)
 
 /-- `reset()`: `X_ref = None`, `num_instances = 0`, `gcd = None`, queue cleared -/
 def reset (s : State α) : State α := { s with n := 0, ref := none, gcd := none, q := s.q.clear }
